@@ -29,17 +29,15 @@ impl Code {
         self.exec_unscoped(&mut interpreter)
     }
     pub fn exec_unscoped(&self, interpreter: &mut Interpreter) -> Result<Variable, ExecError> {
-        match self
-            .instructions
-            .iter()
-            .map(|instruction| instruction.exec(interpreter))
-            .last()
-            .unwrap_or(Ok(Variable::Void))
-        {
-            Ok(var) => Ok(var),
-            Err(ExecStop::Error(err)) => Err(err),
-            Err(_) => unreachable!("Return statement outside of function body"),
+        let mut result = Variable::Void;
+        for instruction in self.instructions.iter() {
+            result = match instruction.exec(interpreter) {
+                Ok(var) => var,
+                Err(ExecStop::Error(err)) => return Err(err),
+                Err(_) => unreachable!("Return statement outside of function body"),
+            };
         }
+        Ok(result)
     }
 }
 
